@@ -9,7 +9,11 @@ A *case* is a JSON-able dict that fully determines one execution:
    'aggs': [ {'fn': name, 'in': [cols] | {'arg': col} | None, 'single': bool,
               'out': name | [n1, n2] | {name: dictkey} | None,
               'noslice': bool, 'opt': {...}}, ... ],
-   'slicers': [ {'kind': ..., ...}, ... ]}
+   'slicers': [ {'kind': ..., ...}, ... ],
+   'dims': {column: dim}}                           # optional: 2-D (batch x dim) columns
+
+An aggregate input entry is a column name or {'lit': constant} (a `Key.Literal`).
+Containers: 'list' (default), 'array' (1-D ndarray), 'array2d' (batch x dim ndarray).
 
 The pipeline side (`build`) talks to the real `TreeTransform` API. The oracle side
 (`expected`) never touches the repository: it flattens the stream to rows, computes
@@ -20,6 +24,7 @@ the aggregate function directly to the selected input columns").
 
 from __future__ import annotations
 
+import collections
 import copy
 from fractions import Fraction
 import math
@@ -73,22 +78,28 @@ def _cols(cols, named, dict_cols):
   return cols
 
 
+Stats = collections.namedtuple('Stats', ['total', 'count'])
+
+
 class Collect:
   """Row-collecting list: result is the list of rows [[c0, c1, ..], ...]."""
 
-  def __init__(self, dict_cols=None, as_dict=False):
+  def __init__(self, dict_cols=None, as_dict=False, lit=False):
     self.dict_cols = dict_cols
     self.as_dict = as_dict
+    self.lit = lit  # the last argument is a constant (Key.Literal), not a column
 
   def create_state(self):
     return []
 
   def update_state(self, state, *cols, **named):
     cols = _cols(cols, named, self.dict_cols)
+    tail = [py(cols.pop())] if self.lit else []  # recorded as it arrived, per row
     lens = {len(c) for c in cols}
     if len(lens) > 1:
       raise AssertionError(f'columns of unequal length reached the aggregator: {lens}')
-    return list(state) + [[py(v) for v in row] for row in zip(*cols)]
+    return list(state) + [[py(v) for v in row] + copy.deepcopy(tail)
+                          for row in zip(*cols)]
 
   def merge_states(self, states):
     out = []
@@ -104,18 +115,24 @@ class Collect:
 class SumCount:
   """Integer weighted sum of all leaves (column i weighs i+1) and leaf count of column 0."""
 
-  def __init__(self, dict_cols=None, shape='list'):
+  def __init__(self, dict_cols=None, shape='list', lit=False):
     self.dict_cols = dict_cols
     self.shape = shape  # 'list' | 'dict' | 'scalar' | 'tuple' (= two outputs)
+    self.lit = lit  # the last argument is an int constant (Key.Literal): a factor
 
   def create_state(self):
     return [0, 0]
 
   def update_state(self, state, *cols, **named):
     cols = _cols(cols, named, self.dict_cols)
+    factor = 1
+    if self.lit:
+      factor = cols.pop()
+      if isinstance(factor, bool) or not isinstance(factor, int):
+        raise AssertionError(f'the literal factor arrived as {factor!r}')
     s = state[0]
     for i, c in enumerate(cols):
-      s += (i + 1) * sum(int(v) for v in flat(c))
+      s += factor * (i + 1) * sum(int(v) for v in flat(c))
     return [s, state[1] + len(flat(cols[0]))]
 
   def merge_states(self, states):
@@ -196,18 +213,85 @@ class FracMeanMetric:
     return base.as_agg_fn(FracMeanMetric, pair=self.pair)
 
 
+RSHAPES = ('tuple', 'namedtuple', 'list_tuple', 'dict_tuple', 'dict_namedtuple',
+           'ndarray', 'ndarray2d', 'dict_ndarray')
+
+
+class Shaped:
+  """Integer sum s / leaf count n of column 0, reported in a typed container.
+
+  The containers are the ones metric code really returns: a namedtuple, a tuple
+  nested in a list or a dict (a confidence interval), a multi-element ndarray. A plain
+  top-level tuple is only used with ONE output key (it is then stored as the value).
+  """
+
+  def __init__(self, rshape='namedtuple'):
+    self.rshape = rshape
+
+  def create_state(self):
+    return [0, 0]
+
+  def update_state(self, state, *cols, **named):
+    cols = _cols(cols, named, None)
+    leaves = flat(cols[0])
+    return [state[0] + sum(int(v) for v in leaves), state[1] + len(leaves)]
+
+  def merge_states(self, states):
+    return [sum(st[0] for st in states), sum(st[1] for st in states)]
+
+  def get_result(self, state):
+    s, n = state
+    r = self.rshape
+    if r == 'tuple':
+      return (s, n)
+    if r == 'namedtuple':
+      return Stats(s, n)
+    if r == 'list_tuple':
+      return [(s, n), s]
+    if r == 'dict_tuple':
+      return {'ci': (s, n), 'inner': {'t': (n, s), 'k': s}, 'n': n}
+    if r == 'dict_namedtuple':
+      return {'stats': Stats(s, n), 'n': n}
+    if r == 'ndarray':
+      return np.array([s, n, s + n], dtype=np.int64)
+    if r == 'ndarray2d':
+      return np.array([[s, n], [n, s]], dtype=np.int64)
+    if r == 'dict_ndarray':
+      return {'v': np.array([s, n], dtype=np.int64), 'n': n}
+    raise ValueError(r)
+
+
 AGG_KINDS = ('collect', 'sumcount', 'fracmean', 'fracmean_metric', 'fracmean_has',
-             'meanvar', 'cm')
+             'meanvar', 'cm', 'shaped')
+
+
+def is_literal(entry):
+  return isinstance(entry, dict) and 'lit' in entry
+
+
+def in_entries(a):
+  """Input entries (column names / {'lit': v}) of an aggregate in call order."""
+  spec = a['in']
+  if spec is None:
+    return []
+  return list(spec.values()) if isinstance(spec, dict) else list(spec)
+
+
+def has_literal(a):
+  return any(is_literal(e) for e in in_entries(a))
 
 
 def make_agg(a):
   """The aggregator object handed to `aggregate(fn=...)`."""
   fn, opt = a['fn'], a.get('opt') or {}
   dict_cols = opt.get('dict_cols')
+  lit = has_literal(a)
   if fn == 'collect':
-    return Collect(dict_cols=dict_cols, as_dict=opt.get('as_dict', False))
+    return Collect(dict_cols=dict_cols, as_dict=opt.get('as_dict', False), lit=lit)
   if fn == 'sumcount':
-    return SumCount(dict_cols=dict_cols, shape=opt.get('shape', 'list'))
+    return SumCount(dict_cols=dict_cols, shape=opt.get('shape', 'list'), lit=lit)
+  if fn == 'shaped':
+    return Shaped(rshape=opt.get('rshape', 'namedtuple'))
   if fn == 'fracmean':
     return FracMean(dict_cols=dict_cols, as_dict=opt.get('as_dict', False))
   if fn == 'fracmean_metric':
@@ -228,7 +312,7 @@ def make_agg(a):
 def direct(a, cols, named):
   """Applies the aggregate function ONCE, directly, to complete columns."""
   fn, opt = a['fn'], a.get('opt') or {}
-  if fn in ('collect', 'sumcount', 'fracmean'):
+  if fn in ('collect', 'sumcount', 'fracmean', 'shaped'):
     agg = make_agg(a)
     return agg.get_result(agg.update_state(agg.create_state(), *cols, **named))
   if fn in ('fracmean_metric', 'fracmean_has'):
@@ -419,11 +503,14 @@ class IntraSlicer:
 def materialize_stream(case):
   """Literal batches -> batches with the requested column containers."""
   containers = case.get('containers') or {}
+  dims = case.get('dims') or {}
   out = []
   for batch in case['stream']:
     b = {}
     for k, v in batch.items():
-      if containers.get(k) == 'array':
+      if containers.get(k) == 'array2d':
+        b[k] = np.array(v, dtype=np.int64).reshape(len(v), dims[k])
+      elif containers.get(k) == 'array':
         if v and isinstance(v[0], str) or (not v and k in case.get('str_cols', ())):
           b[k] = np.array(v, dtype='<U8')
         else:
@@ -434,15 +521,22 @@ def materialize_stream(case):
   return out
 
 
+def _in_key(entry):
+  if is_literal(entry):
+    from ml_metrics._src.chainables import tree
+    return tree.Key.Literal(copy.deepcopy(entry['lit']))
+  return entry
+
+
 def _in_keys(a):
   spec = a['in']
   if spec is None:
     return None
   if isinstance(spec, dict):
-    return dict(spec)
+    return {k: _in_key(v) for k, v in spec.items()}
   if a.get('single'):
-    return spec[0]
-  return tuple(spec)
+    return _in_key(spec[0])
+  return tuple(_in_key(e) for e in spec)
 
 
 def _out_keys(a):
@@ -516,6 +610,12 @@ def _add_slice(t, s):
     if s.get('name'):
       kw['slice_name'] = s['name']
     return t.add_slice({s['keys'][0]: values}, **kw)
+  if kind == 'wcross':
+    # Restricted value sets over a feature cross: add_slice({'a': (..), 'b': (..)}).
+    if s.get('name'):
+      kw['slice_name'] = _name(s['name'])
+    return t.add_slice({k: tuple(v) for k, v in zip(s['keys'], s['values'], strict=True)},
+                       **kw)
   if kind == 'fan':
     keys = s['keys'][0] if len(s['keys']) == 1 else tuple(s['keys'])
     if s.get('name'):
@@ -574,6 +674,11 @@ def _memberships(s, row):
   if kind == 'within':
     v = row[s['keys'][0]]
     return {(v,)} if v in s['values'] else set()
+  if kind == 'wcross':
+    # The cross value of a row whose every feature lies in its allowed set.
+    vals = tuple(row[k] for k in s['keys'])
+    ok = all(v in allowed for v, allowed in zip(vals, s['values'], strict=True))
+    return {vals} if ok else set()
   if kind == 'fan':
     return _o_fan(s['fn'], [row[k] for k in s['keys']])
   raise ValueError(kind)
@@ -588,6 +693,13 @@ def _agg_in_cols(a):
     names = list(spec)  # keyword inputs keep the order of the input_keys dict
     return [spec[n] for n in names], names
   return list(spec), None
+
+
+def _column(entry, rows):
+  """The complete argument for one input entry: the rows' values, or the constant."""
+  if is_literal(entry):
+    return copy.deepcopy(entry['lit'])
+  return [r[entry] for r in rows]
 
 
 def _call_direct(a, columns):
@@ -615,10 +727,15 @@ def _assign_outputs(a, value, slice_key, result):
     result[(spec, slice_key)] = value
 
 
-def expected(case, with_slicers=True):
+def expected(case, with_slicers=True, repl_rows='broadcast'):
   """{(output name, None | (features, values)): value} by brute force.
 
   Also returns per-slicer statistics used for the non-triviality rule.
+
+  `repl_rows`: how replace_mask_false_with=v replaces a masked-out row of a 2-D
+  (batch x dim) column: 'broadcast' = every element of the row becomes v (what a
+  numpy mask does to an array), 'scalar' = the row becomes v (what a list mask does
+  to a list of rows). Both readings are accepted by the check.
   """
   batches = rows_by_batch(case)
   all_rows = [r for rows in batches for r in rows]
@@ -626,7 +743,7 @@ def expected(case, with_slicers=True):
   stats = {'late': False, 'max_values': 0}
   for a in case['aggs']:
     cols, _ = _agg_in_cols(a)
-    value = _call_direct(a, [[r[c] for r in all_rows] for c in cols])
+    value = _call_direct(a, [_column(c, all_rows) for c in cols])
     _assign_outputs(a, value, None, result)
   if not with_slicers:
     return result, stats
@@ -650,7 +767,7 @@ def expected(case, with_slicers=True):
         if s['kind'] == 'intra':
           columns = _intra_columns(s, v, emitted, batches, cols, case, repl)
         else:
-          columns = _row_columns(s, v, emitted, batches, cols, repl)
+          columns = _row_columns(s, v, emitted, batches, cols, repl, repl_rows)
         value = _call_direct(a, columns)
         _assign_outputs(a, value, (feats, v), result)
   return result, stats
@@ -668,18 +785,26 @@ def _row_slices(s, batches):
   return per
 
 
-def _row_columns(s, v, emitted, batches, cols, repl):
+def _row_columns(s, v, emitted, batches, cols, repl, repl_rows='broadcast'):
   columns = [[] for _ in cols]
+  live = [j for j, c in enumerate(cols) if not is_literal(c)]
   for bi in emitted:
     for r in batches[bi]:
       member = v in _memberships(s, r)
       if member:
-        for j, c in enumerate(cols):
-          columns[j].append(r[c])
+        for j in live:
+          columns[j].append(r[cols[j]])
       elif repl is not None:
         # Masked-out rows of a batch in which the slice occurs are replaced.
-        for j, c in enumerate(cols):
-          columns[j].append(repl)
+        for j in live:
+          old = r[cols[j]]
+          if isinstance(old, list) and repl_rows == 'broadcast':
+            columns[j].append([repl] * len(old))  # a row of a 2-D column
+          else:
+            columns[j].append(repl)
+  for j, c in enumerate(cols):
+    if is_literal(c):
+      columns[j] = copy.deepcopy(c['lit'])  # a constant is not a per-row column
   return columns
 
 
@@ -744,22 +869,82 @@ def canon_value(v):
   return repr(v)
 
 
-def canon_result(res, self_output):
-  """Observed pipeline result -> {(name, None | (features, values)): canon value}."""
+def typed_value(v):
+  """Like canon_value, but keeps the container TYPE of tuples, namedtuples, ndarrays."""
+  if isinstance(v, np.ndarray):
+    return {'__ndarray__': canon_value(v.tolist()), 'shape': list(v.shape)}
+  if isinstance(v, tuple) and hasattr(v, '_fields'):
+    return {'__namedtuple__': type(v).__name__, 'fields': list(v._fields),
+            'values': [typed_value(e) for e in v]}
+  if isinstance(v, tuple):
+    return {'__tuple__': [typed_value(e) for e in v]}
+  if isinstance(v, list):
+    return [typed_value(e) for e in v]
+  if isinstance(v, dict):
+    return {str(k): typed_value(e) for k, e in v.items()}
+  return canon_value(v)
+
+
+def untyped(t):
+  """A typed_value with tuples / namedtuples demoted to plain lists (ndarrays kept)."""
+  if isinstance(t, dict):
+    if '__tuple__' in t:
+      return [untyped(e) for e in t['__tuple__']]
+    if '__namedtuple__' in t:
+      return [untyped(e) for e in t['values']]
+    return {k: untyped(e) for k, e in t.items()}
+  if isinstance(t, list):
+    return [untyped(e) for e in t]
+  return t
+
+
+def contains_type(v, kinds):
+  """Does the raw value contain a tuple / ndarray (kinds: subset of those two)?"""
+  if isinstance(v, kinds):
+    return True
+  if isinstance(v, (list, tuple)):
+    return any(contains_type(e, kinds) for e in v)
+  if isinstance(v, dict):
+    return any(contains_type(e, kinds) for e in v.values())
+  return False
+
+
+def _is_metric_key(k):
+  return hasattr(k, 'metrics') and hasattr(k, 'slice')
+
+
+def _slice_of(k):
+  sl = k.slice
+  return (tuple(sl.features), tuple(py(list(sl.values))))
+
+
+def canon_result(res, self_output, conv=canon_value):
+  """Observed pipeline result -> {(name, None | (features, values)): canon value}.
+
+  With the default output key (SELF) the un-sliced result is the root itself; slice
+  results of a SELF-keyed aggregate are the root's MetricKey(SELF, slice) entries.
+  """
   if self_output:
-    return {('', None): canon_value(res)}
+    if not (isinstance(res, dict) and any(_is_metric_key(k) for k in res)):
+      return {('', None): conv(res)}
+    out, root = {}, {}
+    for k, v in res.items():
+      if _is_metric_key(k):
+        out[('', _slice_of(k))] = conv(v)
+      else:
+        root[k] = v
+    if len(root) == 1 and repr(next(iter(root))) == "Reserved('SELF')":
+      root = next(iter(root.values()))  # {SELF: value, MetricKey(SELF, slice): ..}
+    out[('', None)] = conv(root)
+    return out
   if not isinstance(res, dict):
     raise TypeError(f'result is not a dict: {type(res)}')
   out = {}
   for k, v in res.items():
-    if hasattr(k, 'metrics') and hasattr(k, 'slice'):
-      sl = k.slice
-      key = (k.metrics, (tuple(sl.features), tuple(py(list(sl.values)))))
-    else:
-      key = (k, None)
+    key = (k.metrics, _slice_of(k)) if _is_metric_key(k) else (k, None)
     if key in out:
       raise AssertionError(f'two result keys canonicalise to {key}')
-    out[key] = canon_value(v)
+    out[key] = conv(v)
   return out
 
 
